@@ -370,23 +370,39 @@ func c02Keys(w *World, r *Report) {
 		okTS = k == popped[1] && v == popped[0] && km == "Literal" && vm == "Literal"
 	}
 	r.Check(okTS, "R02.4", "Eq predicate arm", efd.Pos(), "TopSet(key = left operand's string value, value = right operand's string value)", "in [key = operand] the key name and the operand value are exchanged or not taken as string values")
-	// the predicate arm applies only inside a predicate (guard on predicateCount > 0)
+	// the predicate arm applies only inside a predicate: whatever the arrangement of the
+	// tests, control reaches TopSet only with predicateCount > 0
 	pc := w.Field("xpath", "context", "predicateCount")
 	guarded := false
-	ast.Inspect(efd.Body, func(n ast.Node) bool {
-		cc, ok := n.(*ast.CaseClause)
-		if !ok || len(calls) != 1 || !(cc.Pos() <= calls[0].Pos() && calls[0].End() <= cc.End()) {
-			return true
-		}
-		for _, e := range cc.List {
-			if be, ok := ast.Unparen(e).(*ast.BinaryExpr); ok && be.Op == token.GTR && fieldOfSel(ep, be.X) == pc {
-				if v, ok := ConstInt(ep, be.Y); ok && v == 0 {
-					guarded = true
+	if ef := w.SSAFunc(eq); ef != nil {
+		sym := NewSym(w)
+		for _, b := range ef.Blocks {
+			for _, in := range b.Instrs {
+				c, ok := in.(*ssa.Call)
+				if !ok || c.Call.StaticCallee() == nil || c.Call.StaticCallee().Object() != types.Object(topSet) {
+					continue
+				}
+				cond := sym.PathCond(ef.Blocks[0], b, nil)
+				subj := ""
+				for _, a := range cond.atoms() {
+					if bo, ok := a.v.(*ssa.BinOp); ok && a.subj != "" {
+						for _, side := range []ssa.Value{bo.X, bo.Y} {
+							if ld, ok := side.(*ssa.UnOp); ok && ld.Op == token.MUL {
+								if fa, ok := ld.X.(*ssa.FieldAddr); ok && isFieldAddrOf(fa, pc) {
+									subj = a.subj
+								}
+							}
+						}
+					}
+				}
+				if subj != "" {
+					if vals, ok := pcValuesWhen(cond, subj); ok && len(vals.minus(ISet{{1, fullISet[0].hi}})) == 0 {
+						guarded = true
+					}
 				}
 			}
 		}
-		return true
-	})
+	}
 	r.Check(guarded, "R02.4", "Eq predicate arm guard", efd.Pos(), "only when predicateCount > 0", "the key-attaching arm of '=' is not restricted to predicates")
 }
 
